@@ -80,6 +80,37 @@ func ruleColourBySign(c *core.Ctx, rule string) {
 		}
 		universe[top] = true
 	}
+	// a named colouring function that a selector hands out (getFormatValue(colour) returning formatValueColored or
+	// formatValuePlain) is judged through the selector: it never sees the colour switch itself
+	for f := range universe {
+		for _, g := range c.P.Funcs {
+			if g == f || g.Parent() != nil || g.Signature.Results().Len() != 1 || len(g.Params) != 1 {
+				continue
+			}
+			if _, isFn := g.Signature.Results().At(0).Type().Underlying().(*types.Signature); !isFn {
+				continue
+			}
+			if b, ok := g.Params[0].Type().Underlying().(*types.Basic); !ok || b.Kind() != types.Bool {
+				continue
+			}
+			hands := false
+			for _, b := range g.Blocks {
+				for _, in := range b.Instrs {
+					for _, op := range in.Operands(nil) {
+						if *op == ssa.Value(f) {
+							if _, isCall := in.(ssa.CallInstruction); !isCall {
+								hands = true
+							}
+						}
+					}
+				}
+			}
+			if hands {
+				delete(universe, f)
+				universe[g] = true
+			}
+		}
+	}
 	if len(universe) == 0 {
 		c.Note(rule + ": no function mentions a terminal escape sequence (vacuous)")
 		return
